@@ -134,8 +134,10 @@ fn verif_replay() {
             // every delivery must decode to the same frames
             let f1 = Frame { addr: Some((0x01020304u32, 80u16).into()), session_id: 1, body: Bytes::from_static(b"ab") };
             let f2 = Frame { addr: Some(("example.org".to_string(), 443u16).into()), session_id: 2, body: Bytes::from_static(b"cdefg") };
-            let mut data = f1.make_header().to_vec(); data.extend_from_slice(&f1.body);
-            data.extend_from_slice(&f2.make_header()); data.extend_from_slice(&f2.body);
+            let f3 = Frame { addr: Some(("example.org".to_string(), 443u16).into()), session_id: 3, body: Bytes::from_static(b"0123456789abcdef") };
+            let wire = |fs: &[&Frame]| -> Vec<u8> { let mut d = vec![]; for f in fs { d.extend_from_slice(&f.make_header()); d.extend_from_slice(&f.body); } d };
+            // short then long, long then short, and three in a row (a longer frame followed by shorter ones)
+            let streams = vec![wire(&[&f1, &f2]), wire(&[&f2, &f1]), wire(&[&f3, &f1, &f1])];
             let rt = tokio::runtime::Builder::new_current_thread().enable_all().build().unwrap();
             let run = |chunks: Vec<Vec<u8>>| -> Result<Vec<String>, ()> {
                 catch_unwind(AssertUnwindSafe(|| {
@@ -155,17 +157,22 @@ fn verif_replay() {
                     })
                 })).map_err(|_| ())
             };
-            let whole = run(vec![data.clone()]);
             let mut mismatch = serde_json::Value::Null;
-            for cut in 1..data.len() {
-                let r = run(vec![data[..cut].to_vec(), data[cut..].to_vec()]);
-                if r != whole { mismatch = serde_json::json!({"cut": cut, "got": r.ok(), "whole": whole.clone().ok()}); break; }
+            let mut panicked = false;
+            for (si, data) in streams.iter().enumerate() {
+                let whole = run(vec![data.clone()]);
+                panicked = panicked || whole.is_err();
+                for cut in 1..data.len() {
+                    let r = run(vec![data[..cut].to_vec(), data[cut..].to_vec()]);
+                    if r != whole { mismatch = serde_json::json!({"stream": si, "cut": cut, "got": r.ok(), "whole": whole.clone().ok()}); break; }
+                }
+                if mismatch.is_null() {
+                    let r = run(data.iter().map(|b| vec![*b]).collect());
+                    if r != whole { mismatch = serde_json::json!({"stream": si, "cut": "bytewise", "got": r.ok(), "whole": whole.clone().ok()}); }
+                }
+                if !mismatch.is_null() { break; }
             }
-            if mismatch.is_null() {
-                let r = run(data.iter().map(|b| vec![*b]).collect());
-                if r != whole { mismatch = serde_json::json!({"cut": "bytewise", "got": r.ok(), "whole": whole.clone().ok()}); }
-            }
-            outcome(serde_json::json!({"panicked": whole.is_err(), "mismatch": !mismatch.is_null(), "detail": mismatch}));
+            outcome(serde_json::json!({"panicked": panicked, "mismatch": !mismatch.is_null(), "detail": mismatch}));
         }
         _ => outcome(serde_json::json!({"unknown_driver": drv})),
     }
